@@ -470,3 +470,103 @@ def odd_everywhere(s, chars=None):
         for i in range(len(s)):
             out.append(s[:i] + ch + s[i + 1:])
     return out
+
+
+# ---- header VALUES of the enum keys ---------------------------------------------
+# The conversion of a parsed value into an enum (YaccKind::try_from in ASTWithValidityInfo::from_str /
+# YaccGrammar::from_str, RecoveryKind / SerialisationFormat / LexerKind in the builders and nimbleparse) reports
+# EVERY faulty component of the value in ONE error: wrong namespace, wrong member, wrong argument namespace, wrong
+# argument — 1 to 4 spans under SpansKind::Error.  Near-valid values: each component right / absent / a typo of the
+# right name / a name that is right elsewhere, several wrong at once, other shapes (flag, number, string, array),
+# written on one line and spread over several lines (so that the spans lie on different lines of the rendering).
+YK_NS = [None, "YaccKind", "yacckind", "YACCKIND", "YaccKnd", "Foo", "YaccOriginalActionKind", "Kind"]
+YK_UNIT = ["Grmtools", "Eco", "grmtools", "ECO", "Grmtols", "Original", "Bar", "NoAction"]
+YK_CTOR = ["Original", "original", "Orignal", "Grmtools", "X"]
+AK_NS = [None, "YaccOriginalActionKind", "yaccoriginalactionkind", "YaccOriginalActionKnd", "YaccKind", "X"]
+AK = ["NoAction", "UserAction", "GenericParseTree", "genericparsetree", "NoActon", "Y", "Grmtools"]
+RK_NS = [None, "RecoveryKind", "recoverykind", "RecoverKind", "YaccKind"]
+RK = ["CPCTPlus", "None", "cpctplus", "CPCT", "Bar"]
+SF_NS = [None, "SerialisationFormat", "SerializationFormat", "Foo"]
+SF = ["FixedSizeInteger", "VariableSizedInteger", "fixedsizeinteger", "FixedSizedInteger", "Bar"]
+LK_NS = [None, "LexerKind", "LexrKind", "YaccKind"]
+LK = ["LRNonStreamingLexer", "lrnonstreaminglexer", "LRStreamingLexer", "Bar"]
+OTHER_SHAPES = ["7", "\"Grmtools\"", "[Grmtools]", "[]", "[YaccKind::Grmtools, Eco]", "18446744073709551615"]
+
+YACC_BODY = "\n%start S\n%%\nS: 'a' S | ;\n"
+LEX_BODY = "\n%%\n[a-z] 'A'\n"
+
+
+def _nsd(ns, m, wide):
+    if ns is None:
+        return m
+    return (ns + "\n ::  " + m) if wide else (ns + "::" + m)
+
+
+def enum_value(cns, c, ans=None, a=None, wide=False, has_arg=True):
+    """`[cns::]c` or `[cns::]c([ans::]a)`"""
+    v = _nsd(cns, c, wide)
+    if has_arg and a is not None:
+        v += ("\n  (\n   " if wide else "(") + _nsd(ans, a, wide) + ("\n  )" if wide else ")")
+    return v
+
+
+def enum_header(entries, wide=False):
+    """%grmtools section with the given (key, value-text | None for a flag) entries"""
+    if wide:
+        body = ",\n".join(("  " + k + ":\n    " + v) if v is not None else ("  " + k) for k, v in entries)
+        return "\n\n%grmtools {\n" + body + "\n}\n"
+    return "%grmtools{" + ", ".join((k + ": " + v) if v is not None else k for k, v in entries) + "}"
+
+
+def enum_value_headers(rng, n_random):
+    """list of (text of the section, origin tag): the exhaustive right/absent/wrong product for yacckind, the
+    products for the other enum keys, other shapes, several wrong keys at once, and `n_random` random picks out of
+    the larger name lists"""
+    out = []
+    tri = lambda right, wrong: [None, right, wrong]
+    # yacckind, constructor form: {absent, right, wrong}^2 x {right, wrong}^2 = 36, both layouts
+    for cns in tri("YaccKind", "YaccKnd"):
+        for c in ("Original", "Orignal"):
+            for ans in tri("YaccOriginalActionKind", "YaccOriginalActionKnd"):
+                for a in ("NoAction", "NoActon"):
+                    for wide in (False, True):
+                        out.append(enum_header([("yacckind", enum_value(cns, c, ans, a, wide))], wide))
+    # yacckind, unitary form
+    for cns in YK_NS:
+        for c in YK_UNIT:
+            out.append(enum_header([("yacckind", enum_value(cns, c))]))
+    for cns in tri("YaccKind", "Foo"):
+        for c in ("Eco", "Bar"):
+            out.append(enum_header([("a", "1"), ("yacckind", enum_value(cns, c, wide=True))], True))
+    # the other enum keys
+    for key, nss, ms in (("recoverer", RK_NS, RK), ("serialisation_format", SF_NS, SF), ("lexerkind", LK_NS, LK)):
+        for ns in nss:
+            for m in ms:
+                out.append(enum_header([("yacckind", "Grmtools"), (key, enum_value(ns, m))]))
+        out.append(enum_header([("yacckind", "Grmtools"), (key, enum_value(nss[1], ms[0], "X", "Y"))]))
+        out.append(enum_header([(key, enum_value("Foo", "Bar", wide=True)), ("yacckind", "Grmtools")], True))
+    # other shapes for every enum key; the key as a flag
+    for key in ("yacckind", "recoverer", "serialisation_format", "lexerkind"):
+        for v in OTHER_SHAPES:
+            out.append(enum_header([(key, v)]))
+        out.append(enum_header([(key, None)]))
+        out.append(enum_header([("!" + key, None)]))
+    # several keys wrong at once
+    out.append(enum_header([("yacckind", "Foo::Bar"), ("recoverer", "Foo::Bar"), ("serialisation_format", "Foo::Bar"),
+                            ("lexerkind", "Foo::Bar")]))
+    out.append(enum_header([("yacckind", "YaccKnd::Orignal(YaccOriginalActionKnd::NoActon)"), ("recoverer", "RecoverKind::CPCT"),
+                            ("serialisation_format", "Foo::Bar")], True))
+    out.append(enum_header([("yacckind", "Original(NoAction)"), ("recoverer", "Foo::Bar"), ("serialisation_format", "Foo::Bar")]))
+    for _ in range(n_random):
+        wide = rng.random() < 0.4
+        es = [("yacckind", enum_value(rng.choice(YK_NS), rng.choice(YK_CTOR), rng.choice(AK_NS), rng.choice(AK), wide)
+               if rng.random() < 0.7 else enum_value(rng.choice(YK_NS), rng.choice(YK_UNIT), wide=wide))]
+        if rng.random() < 0.4:
+            es.append(("recoverer", enum_value(rng.choice(RK_NS), rng.choice(RK), wide=wide)))
+        if rng.random() < 0.4:
+            es.append(("serialisation_format", enum_value(rng.choice(SF_NS), rng.choice(SF), wide=wide)))
+        if rng.random() < 0.3:
+            es.append((name(rng), setting(rng)))
+        rng.shuffle(es)
+        out.append(enum_header(es, wide))
+    return out
